@@ -272,6 +272,9 @@ def run(prop, prop_file, mode, tier, seed):
         if gen.value_size(v) > 1 or len(S.rules) > 1:
             distinct.add((S.cddl(), ast.val_sexp(v)))
         bad = None
+        if va != m and zones.eqne_number_class_grey(S, v):
+            skipped["eq-ne-number-class-undecided"] = skipped.get("eq-ne-number-class-undecided", 0) + 1
+            continue
         if va != m:
             bad = "verdict: implementation %s, RFC 8610 semantics (vmodel) %s" % (a[:160], m)
         elif cbor and idx < n_gen and runner.verdict_of(impl2[idx]) != va:
